@@ -9,7 +9,7 @@ import vlib
 from vlib import SPEC
 
 D = SPEC / "JsonFields"
-FIELDS = ["fa", "fb", "we\"ird", "back\\slash", "ctl\u0001x", "uni z", "crab\U0001f980", "dotted.name"]
+FIELDS = ["fa", "fb", "we\"ird", "back\\slash", "ctl\u0001x", "uni z", "crab\U0001f980", "dotted.name", "r#ref", "r#return"]
 SPAN_NAMES = {"spA": "spA", "spB": "spB", "spC": "spC", "spD": "sp\"D\\"}
 NASTY = ["", "plain", "quote\"inside", "back\\slash", "new\nline", "tab\tctl\u0001\u001f", "ls ps ", "crab\U0001f980\U0001f4a9", "{\"json\":1}", "'single'",
          "éè 中文", "</script>", "\\u0041", "null", "a" * 300]
@@ -18,6 +18,11 @@ INTS = {"u64": ["0", "1", "18446744073709551615", "9223372036854775808", "42"],
         "u128": ["0", "340282366920938463463374607431768211455", "18446744073709551616"],
         "i128": ["-170141183460469231731687303715884105728", "170141183460469231731687303715884105727", "7"]}
 FLOATS = ["0", "-0.0", "1.5", "1e300", "-2.5e-7", "nan", "inf", "-inf", "3.141592653589793", "1e21", "123456789012345680000"]
+
+
+def ck(name):
+    """canonical field key: `r#ref` and `ref` name the same field (the formatter strips the raw-identifier prefix for some value types only)"""
+    return name[2:] if name.startswith("r#") else name
 
 
 def h(x):
@@ -102,7 +107,7 @@ def observed_token(x):
 
 
 def pairs(fields):
-    return [{"k": h(f["name"]), "v": expected_token(f["val"])} for f in fields]
+    return [{"k": h(ck(f["name"])), "v": expected_token(f["val"])} for f in fields]
 
 
 class Dup(Exception):
@@ -133,8 +138,8 @@ def project(raw, opts):
         return obs
     obs["valid"] = True
     ev = {k: v for k, v in o.items() if k not in META_KEYS} if opts["flatten"] else o.get("fields", {})
-    obs["fields"] = [{"k": h(k), "v": observed_token(v)} for k, v in ev.items()]
-    conv = lambda d: [{"k": ("name" if k == "name" else h(k)), "v": ("s:" + h(v) if k == "name" else observed_token(v))} for k, v in d.items()]
+    obs["fields"] = [{"k": h(ck(k)), "v": observed_token(v)} for k, v in ev.items()]
+    conv = lambda d: [{"k": ("name" if k == "name" else h(ck(k))), "v": ("s:" + h(v) if k == "name" else observed_token(v))} for k, v in d.items()]
     if isinstance(o.get("span"), dict):
         obs["has_span"] = True
         obs["span"] = conv(o["span"])
@@ -148,16 +153,22 @@ def behaviour(rng):
             "file": rng.random() < 0.2, "line": rng.random() < 0.2, "ansi": False, "time": rng.random() < 0.3, "span_events": "none",
             "flatten": rng.random() < 0.35, "current_span": rng.random() < 0.8, "span_list": rng.random() < 0.8}
     steps, serial, live, ent = [], 0, {}, {1: [], 2: []}
+    npair = 0
     while len(steps) < 45:
         t = rng.choice([1, 1, 2])
         ops = ["event"] * 5 + ["new"] * 3
         if live:
-            ops += ["record"] * 4 + ["enter"] * 3 + ["event_of"] * 2 + ["event_root"]
+            ops += ["record"] * 4 + ["enter"] * 3 + ["event_of"] * 2 + ["event_root"] + (["record_pair"] if npair < 2 else [])
         if any(ent.values()):
             ops += ["exit"] * 2
         op = rng.choice(ops)
         names = rng.sample(FIELDS, rng.choice([0, 1, 2, 3]))
         fields = [{"name": nm, "val": rand_val(rng)} for nm in names]
+        for f in fields:
+            # raw-identifier names (r#ref): the formatter strips `r#` only for values recorded through Debug/Display, so typed
+            # values would appear under a second key; the generator gives such fields Debug/Display values only
+            if f["name"].startswith("r#") and f["val"]["t"] not in ("debug", "display"):
+                f["val"] = {"t": rng.choice(["debug", "display"]), "v": rng.choice(NASTY)}
         if op in ("event", "event_of", "event_root"):
             e = {"op": "event", "t": t, "lvl": rng.randint(1, 5), "tgt": rng.choice(["a", "b"]), "pk": {"event": "ctx", "event_of": "of", "event_root": "root"}[op],
                  "p": rng.choice(list(live)) if op == "event_of" else 0, "fields": fields}
@@ -170,6 +181,11 @@ def behaviour(rng):
             live[serial] = nm
             pk = rng.choice(["ctx", "ctx", "root", "of"]) if live and len(live) > 1 else "ctx"
             steps.append({"op": "new", "t": t, "s": serial, "name": nm, "pk": pk, "p": rng.choice([x for x in live if x != serial]) if pk == "of" else 0, "fields": fields})
+        elif op == "record_pair":
+            # two threads record different fields of the span at the same moment (the first value's Debug impl waits for the other call)
+            npair += 1
+            steps.append({"op": "record_pair", "t": t, "s": rng.choice(list(live)),
+                          "fields": [{"name": "fa", "val": {"t": "display", "v": "slow%d" % len(steps)}}, {"name": "fb", "val": {"t": "str", "v": "fast%d" % len(steps)}}]})
         elif op == "record":
             if not fields:
                 continue
@@ -199,7 +215,7 @@ def to_trace(behs, lines):
             out.append(x)
             continue
         writes = [c["raw"] for c in x.get("calls", []) if "w" in c]
-        r = {"ev": "op", "op": x["op"], "t": x.get("t", 1), "s": x.get("s", 0), "p": x.get("p", 0), "pk": x.get("pk", "ctx"), "nwrites": len(writes)}
+        r = {"ev": "op", "op": "record" if x["op"] == "record_pair" else x["op"], "t": x.get("t", 1), "s": x.get("s", 0), "p": x.get("p", 0), "pk": x.get("pk", "ctx"), "nwrites": len(writes)}
         r["exp"] = pairs(x.get("fields", []))
         if x["op"] == "new":
             r["nametok"] = "s:" + h(SPAN_NAMES[x["name"]])
